@@ -279,12 +279,54 @@ def d101():
     return f"Mesh(cell=1000) on an edge of length 1 at offset 1e15 accepted: n={m.n.tolist()}, cell={m.cell.tolist()}"
 
 
+def d111():
+    m = df.Mesh(p1=(0, 0), p2=(4, 2), n=(4, 2))
+    f = df.Field(m, nvdim=2, value=(1, 2))
+    g = df.Field(m, nvdim=1, value=lambda p: p[0] - 1.5)
+    f.valid = g
+    return None if f.valid.dtype == bool else f"f.valid = <real field> stores dtype {f.valid.dtype}"
+
+
+def d113():
+    m = df.Mesh(p1=(0, 0), p2=(4, 2), n=(4, 2))
+    f = df.Field(m, nvdim=1, value=lambda p: p[0])
+    g = -f
+    g.rotate90("x", "y", inplace=True)
+    if list(f.mesh.n) != [4, 2] or f.array.shape != (4, 2, 1):
+        return f"in-place rotate90 of g = -f changed f: mesh.n {f.mesh.n.tolist()}, array {f.array.shape}"
+
+
+def d114():
+    m = df.Mesh(p1=(0, 0, 0), p2=(4, 2, 2), n=(4, 2, 2))
+    f = df.Field(m, nvdim=3, value=(1, 2, 3))
+    g = f.rotate90("z", "x", k=-4)
+    g.vdim_mapping.clear()
+    return None if f.vdim_mapping == {"x": "x", "y": "y", "z": "z"} else f"clearing the copy's mapping changed the original: {f.vdim_mapping}"
+
+
+def d45():
+    m = df.Mesh(p1=(0, 0), p2=(4, 2), n=(4, 2))
+    f = df.Field(m, nvdim=3, value=(1, 2, 3), vdims=[])
+    cols = list(f.line((0, 0), (4, 2), n=3).data.columns)
+    return None if len([c for c in cols if c.startswith("v")]) == 3 else f"Field.line of an unlabelled 3-vector has columns {cols}"
+
+
+def d46():
+    m = df.Mesh(p1=(0, 0, 0), p2=(4, 3, 4), n=(4, 3, 4))
+    try:
+        f = df.Field(m, nvdim=3, value=(1, 2, 3), vdims=[])
+    except TypeError as e:
+        return f"Field(nvdim=3, vdims=[]) on a 3-d mesh raises TypeError: {e}"
+    return None if f.vdims is None else f"vdims {f.vdims}"
+
+
 ALL = {
     "D1": ("C13", d1), "D2": ("C13", d2), "D3": ("C12", d3), "D4": ("C12", d4),
     "D5": ("C08", d5), "D6": ("C08", d6), "D7": ("C08", d7), "D8": ("C03", d8),
     "D9": ("C03", d9), "D11": ("C02", d11), "D12": ("C10", d12), "D13": ("C10", d13),
     "D14": ("C09", d14), "D15": ("C09", d15), "D16": ("C11", d16), "D20": ("C19", d20), "D21": ("C13", d21), "D22": ("C08", d22), "D23": ("C03", d23), "D31": ("C10", d31), "D41": ("C02", d41), "D43": ("C02", d43), "D44": ("C02", d44),
-    "D101": ("C01", d101),
+    "D101": ("C01", d101), "D111": ("C08", d111), "D113": ("C13", d113), "D114": ("C12", d114),
+    "D45": ("C02", d45), "D46": ("C02", d46),
 }
 
 
